@@ -90,6 +90,10 @@ def selectors_for(rows, cols, thorough=False):
             '', (1, 1, 1), (), (slice(None),), 1.0, None, 2.5, {'a': 1}, [f"{rows[0]}"], [1], [(1, 1, 1)], [(slice(None), 1)],
             [None], [f"{other}:{cols[0]}"], [(len(rows) + 1, 1)], [(0, 1)], [], True,
             (True, 1), [f"{rows[0]}:{cols[0]}", f"{rows[0]}:{cols[0]}"]]
+    # fractional numbers are no indices, wherever they stand and whatever their type (a Python float, a numpy scalar that came
+    # out of numpy.mean or numpy.linspace); integral numpy scalars are left out: accepting them would be a legitimate extension
+    out += [(1.5, 1), (1, 1.5), (numpy.float64(1.5), 1), (1, numpy.float64(1.5)), (numpy.float64(1.25), cols[0]),
+            (rows[0], numpy.float32(1.5)), [(numpy.float64(1.5), 1)], (numpy.float64(0.5), 1), (slice(None), numpy.float64(1.5))]
     return out
 
 
